@@ -19,7 +19,7 @@ func Sinh(d Number) Number {
 			Real:    d.Real,
 			E1mag:   d.E1mag,
 			E2mag:   d.E2mag,
-			E1E2mag: d.Real,
+			E1E2mag: zeroE1E2(d.E1E2mag, d.Real),
 		}
 	}
 	if math.IsInf(d.Real, 0) {
@@ -80,7 +80,7 @@ func Tanh(d Number) Number {
 			Real:    d.Real,
 			E1mag:   d.E1mag,
 			E2mag:   d.E2mag,
-			E1E2mag: -d.Real,
+			E1E2mag: zeroE1E2(d.E1E2mag, -d.Real),
 		}
 	case math.Inf(1):
 		return Number{
@@ -120,7 +120,7 @@ func Asinh(d Number) Number {
 			Real:    d.Real,
 			E1mag:   d.E1mag,
 			E2mag:   d.E2mag,
-			E1E2mag: -d.Real,
+			E1E2mag: zeroE1E2(d.E1E2mag, -d.Real),
 		}
 	}
 	fn := math.Asinh(d.Real)
@@ -185,7 +185,7 @@ func Atanh(d Number) Number {
 			Real:    d.Real,
 			E1mag:   d.E1mag,
 			E2mag:   d.E2mag,
-			E1E2mag: d.Real,
+			E1E2mag: zeroE1E2(d.E1E2mag, d.Real),
 		}
 	}
 	if math.Abs(d.Real) == 1 {
